@@ -474,18 +474,10 @@ def run_check(pid, cfg, tier, seed, jobs, replay=None):
         for key, rp in new_violation_paths:
             print("VIOLATION property=%s replay=%s" % (pid, rp))
     # evidence must validate; distinct_nontrivial>=2 is required by the schema: if not reached we do not write a passing file
-    try:
-        try:
-            import jsonschema  # optional
-        except ImportError:
-            sys.path.append(glob.glob("/opt/veriftools/pyvenv/lib/python3*/site-packages")[0])
-            import jsonschema
-        schema = json.load(open("/root/.vp/EVIDENCE.schema.json"))
-        jsonschema.validate(ev, schema)
-    except (ImportError, IndexError, FileNotFoundError):
-        pass
-    except Exception as e:  # validation error
-        log("evidence does not validate: %s" % str(e)[:300])
+    from . import validate
+    err = validate.validate(ev, "/root/.vp/EVIDENCE.schema.json")
+    if err:
+        log("evidence does not validate: %s" % err[:300])
         if rc == 0:
             rc = 2
     with open(evidence_path, "w") as f:
